@@ -199,7 +199,7 @@ func (e *c07env) quiesce() error {
 		if time.Now().After(deadline) {
 			return fmt.Errorf("the server does not come to rest (dispatcher busy or a flush of parked messages never ends)")
 		}
-		if e.cl.Servers[1].VerifRoutines() > 0 || atomic.LoadInt64(&e.flushStarted) != atomic.LoadInt64(&e.flushDone) {
+		if e.cl.Servers[1].VerifRoutines() > 0 || atomic.LoadInt64(&e.flushStarted) != atomic.LoadInt64(&e.flushDone) || !c04flushIdle() {
 			time.Sleep(200 * time.Microsecond)
 			continue
 		}
@@ -581,6 +581,13 @@ func c07exec(c *h.Ctx, cs *h.Case) {
 							extra++
 						}
 						e.ov.Process(&network.Envelope{ServerIdentity: e.cl.SI(0), MsgType: t2, Msg: m2})
+						// every flush goroutine this envelope caused — started or not yet — has to be through before the
+						// next envelope is handled (read off the goroutine dump: a routine that was created and has not
+						// run yet has not passed its cpm.start point)
+						if !c04flushIdle() {
+							winErr = "a flush started inside the window does not end"
+							return
+						}
 						for dl := time.Now().Add(5 * time.Second); atomic.LoadInt64(&e.flushStarted) != atomic.LoadInt64(&e.flushDone); time.Sleep(100 * time.Microsecond) {
 							if time.Now().After(dl) {
 								winErr = "a flush started inside the window does not end"
